@@ -642,7 +642,8 @@ def main(argv):
                         rec['status'] = 'known-finding'
                     else:
                         rec['status'] = 'failed'
-                        rec['failed_checks'] = [{'description': msg[:600]}]
+                        head = next((l for l in msg.split('\n') if l.startswith(h.id)), msg)
+                        rec['failed_checks'] = [{'description': head[:700]}]
                         rp = os.path.join(OUT_DIR, 'replay', f'{prop}.{h.name}.json')
                         os.makedirs(os.path.dirname(rp), exist_ok=True)
                         json.dump({'property': prop, 'obligation': h.id, 'harness': h.fq, 'unit': h.unit.name, 'engine': 'native', 'text': h.text,
